@@ -31,13 +31,17 @@ static void note_site(void) {
         char buf[512];
         buf[0] = '\0';
         __sanitizer_symbolize_pc((char *) bt[i] - 1, "%f@%s:%l", buf, sizeof buf);
-        if (strstr(buf, "/repo/src/") != NULL) {
-            const char *f = strstr(buf, "/repo/src/");
-            const char *at = strchr(buf, '@');
-            size_t fl = at ? (size_t) (at - buf) : 0;
-            if (fl > 100) fl = 100;
-            snprintf(fired_site, sizeof fired_site, "%.*s@%s", (int) fl, buf, f + 10);
-            return;
+        /* a frame in the library's sources: .../src/<file>.c or .../src/internal/<file>.h (wherever the tree lives) */
+        {
+            const char *f = strstr(buf, "/src/");
+            if (f != NULL && strstr(f, "/harness/") == NULL && strstr(buf, "/verif/") == NULL
+                    && (strchr(f + 5, '/') == NULL || strncmp(f + 5, "internal/", 9) == 0)) {
+                const char *at = strchr(buf, '@');
+                size_t fl = at ? (size_t) (at - buf) : 0;
+                if (fl > 100) fl = 100;
+                snprintf(fired_site, sizeof fired_site, "%.*s@%s", (int) fl, buf, f + 5);
+                return;
+            }
         }
     }
 }
